@@ -355,13 +355,14 @@ def r3(cx):
             if not ser or not wr: continue
             cx.saw(body)
             n_w += 1
-            adds = [t for t in body.calls("=add") if "String" in t.callee.resolved or "string" in t.callee.resolved]
+            adds = [t for t in body.calls("=add", "=push_str", "=push") if "String" in t.callee.resolved or "string" in t.callee.resolved]
             lits = []
             sl = Slice(body)
             for t in adds:
                 for a in t.args[1:]:
                     for k, o in sl.origins(a):
                         if k == "const" and o.cstr() is not None: lits.append(o.cstr())
+                        elif k == "const" and (o.const or {}).get("chr") is not None: lits.append(o.const["chr"])
                         elif k != "const": lits.append("<non-constant>")
             good = lits == ["\0"] * len(ser) and len(lits) >= 1
             cx.check(good, "C02.R3", "%s:%s:terminator" % (pkg, body.path), body.sp,
